@@ -73,7 +73,7 @@ def run_real(script_text, probes, cases, fn='_cmd', keep=None):
         f.write(driver_text(sp, probes, cases, fn, op, lp))
     try:
         p = subprocess.run(['bash', '--noprofile', '--norc', dp], stdout=subprocess.PIPE,
-                           stderr=subprocess.STDOUT, text=True, timeout=120, errors='replace')
+                           stderr=subprocess.STDOUT, text=True, timeout=900, errors='replace')
         with open(op, errors='replace') as f:
             out = f.read().split('\n')
         with open(lp, errors='replace') as f:
